@@ -646,6 +646,24 @@ def check_docstring_route(ctx, T, geno, alleles, anc, muts, rng):
            f"the new site is not in the tree sequence; {witness}", witness)
 
 
+def after_refusal(ctx, T, refused):
+    """The valid call that follows a refused one on the SAME Tree object: every sample gets an allele other than the one
+    it had in the refused vector (whatever the refused call had already read must not leak into this answer)."""
+    ns = len(T.samples)
+    if ns == 0:
+        return
+    try:
+        old = [int(x) for x in list(refused)[:ns]]
+    except Exception:  # noqa: BLE001
+        old = []
+    old += [0] * (ns - len(old))
+    geno = [1 if g == 0 else 0 for g in old]
+    if ns > 2:
+        geno[-1] = MISSING
+    ctx.count("oracle:call-after-refused-call")
+    check_call(ctx, T, geno, ("A", "C"), None)
+
+
 def expect_raise(ctx, T, geno, alleles, anc_arg, key, why, kw=False):
     ctx.count("oracle:must-raise")
     ctx.feature("error:" + why)
@@ -657,7 +675,10 @@ def expect_raise(ctx, T, geno, alleles, anc_arg, key, why, kw=False):
         else:
             res = T.tree.map_mutations(geno, alleles, anc_arg)
     except Exception:
-        return  # EITHER: the class of the exception is not fixed by the docs
+        # EITHER: the class of the exception is not fixed by the docs.  What IS fixed: a refused call leaves nothing
+        # behind - the next call on the same Tree object must answer as a fresh tree would.
+        after_refusal(ctx, T, geno)
+        return
     report(ctx, key, f"{why}: accepted and returned {res!r}; {witness}", witness)
 
 
@@ -667,7 +688,8 @@ def expect_raise_ll(ctx, T, f, args, key, why):
     try:
         res = f()
     except Exception:
-        return  # EITHER: the class of the exception is not fixed
+        after_refusal(ctx, T, args.get("genotypes"))   # EITHER: the class of the exception is not fixed
+        return
     witness = {"tree": T.describe(), "why": why, "entry": "_tskit.Tree.map_mutations"}
     witness.update({k: plain(v) if not isinstance(v, list) else [int(x) for x in v] for k, v in args.items()})
     report(ctx, key, f"{why}: accepted and returned {res!r}; {witness}", witness)
